@@ -53,7 +53,14 @@ type (
 	// Huge is an array type of size 0 whose length is such that arrays of anything with a size
 	// cannot exist (reflect.ArrayOf(len, <pointer>) would exceed the address space).
 	Huge [1 << 61]struct{}
+
+	// ZI is a non-pointer type implementing I0 whose every scripted value is the zero value.
+	ZI int8
+	// Big is 128 KiB: `chan *Big` is a legal type, `chan Big` is not (reflect.ChanOf refuses elements of 64 KiB or more).
+	Big [1 << 17]byte
 )
+
+func (ZI) MI0() {}
 
 func (*T0) MI0() {}
 func (*T1) MI0() {}
@@ -151,8 +158,13 @@ var byID = map[int]reflect.Type{
 
 	70: reflect.TypeOf(int(0)),
 
+	71: reflect.TypeOf(ZI(0)),
+
 	80: reflect.TypeOf([2]*T0{}),
 	81: reflect.TypeOf(Huge{}),
+	82: reflect.TypeOf((chan *Big)(nil)),
+	83: reflect.TypeOf(map[string]*T0(nil)),
+	84: reflect.TypeOf((func() *T0)(nil)),
 }
 
 var (
@@ -273,8 +285,12 @@ var expected = func() []TypeInfo {
 	add(64, "slice", 50, false)
 	add(65, "slice", 51, false)
 	add(70, "other", -1, false)
+	add(71, "other", -1, false, 20)
 	add(80, "other", -1, false)
 	add(81, "other", -1, false)
+	add(82, "other", -1, false)
+	add(83, "other", -1, false)
+	add(84, "other", -1, false)
 	return e
 }()
 
